@@ -574,8 +574,8 @@ package core
 //@   flag bounds=panic
 //@   requires decoder != nil && 0 <= decoder.head && decoder.head <= decoder.tail && decoder.tail <= len(decoder.buf) && decoder.reader == nil
 //@   modifies ghost.rpos[*], ghost.rfailed[*]
-//@   loop 2 invariant 0 <= i && len(args) == count && len(paramTypes) == count && decoder.reader == nil && 0 <= decoder.head && decoder.head <= decoder.tail && decoder.tail <= len(decoder.buf) &&
+//@   loop 2 invariant 0 <= i && decoder.reader == nil && 0 <= decoder.head && decoder.head <= decoder.tail && decoder.tail <= len(decoder.buf) &&
 //@       (!decoder.simple ==> len(decoder.refer.ref) >= 1)
 //@   atmake [allocation_bounded_by_the_request] makecap <= decoder.tail - decoder.head
 //@   atcall AddReference [the_argument_list_itself_takes_a_reference_number_before_its_elements] decoder.simple || len(decoder.refer.ref) == 0
-//@   ensures [the_argument_list_is_numbered] !decoder.simple && len(args) > 0 ==> len(decoder.refer.ref) >= 1
+//@   ensures [the_argument_list_is_numbered] !decoder.simple && !method_missing(typeof(method), ival(method)) && result1 == nil && len(result0) > 0 ==> len(decoder.refer.ref) >= 1
